@@ -10,8 +10,28 @@ P = {
          "Every canonical sequence of Set/Get/Delete/clock-advance/Close up to the tier's length over 3 keys, capacities 1-3, four policies, expiry on/off, sync/async callbacks is executed on the real cache and compared after every op with a reference model (exact for LRU/SLRU, exact up to ties for LFU, generic invariants for TinyLFU), plus seeded random sequences at capacities on both sides of the 80% and 1% thresholds. Held on what was executed; nothing beyond the bound is claimed.",
          "Trusted: the reference models (written from the policy definitions), testing/synctest quiescence, Go runtime. Panics are caught per sequence; a 120 s no-progress watchdog reports a hang.",
          "3/C15"),
+ "C01": ("hist", "exploration",
+         "round-trip oracle over seeded random histories in a testing/synctest virtual-time bubble (monitored metastore/KMS/AEAD/secret factory)",
+         "Seeded random histories interleave encrypt/store, decrypt/load through the same, another and a brand-new factory, session and factory churn with random cache policies (all five key-cache policies, capacities 1..1000, shared IK cache, session cache, no cache, both secure-memory implementations), clock advances across precision/revoke/lifetime boundaries and out-of-band revocations; every decrypt is compared with the recorded payload, caller buffers are compared before/after, and a final sweep decrypts every record through a fresh factory. Held on the histories executed (counts in the evidence).",
+         "Trusted: testing/synctest virtual clock, in-memory metastore and StaticKMS as stand-ins for real back ends, Go's AES-GCM.",
+         "3/C01"),
+ "C03": ("hist", "exploration",
+         "online trace checker over AEAD/KMS/metastore/secret-factory/log monitor events (key-role provenance typing, duplicate-free nonce and (key,nonce) sets, artefact byte scanning)",
+         "Every AEAD.Encrypt the SDK issues during seeded histories (debug logging on) is typed against the hierarchy payload<fresh DRK<partition IK<service SK<KMS using roles derived from provenance; nonce and (key,nonce) sets must stay duplicate-free; each data key must be a CreateRandom secret of the same call used exactly once; every record, stored row, KMS output and log line is scanned for known plaintext keys/payloads in raw, base64 and hex form.",
+         "Trusted: monitors see everything because the SDK reaches AEAD/KMS/metastore/secret factory only through these interfaces; a 96-bit nonce repeat is treated as a violation.",
+         "3/C03"),
+ "C04": ("hist", "exploration",
+         "per-record oracle in virtual time (testing/synctest) over seeded histories plus a deterministic boundary matrix",
+         "For every record produced in seeded histories and in a deterministic matrix (6 cache configurations x 5 SK/IK age offsets x warm/cold sessions, encrypts placed +-1ns/+-1s around every IK/SK expiry boundary and SK expiry + one interval) the oracle recomputes from the record, raw rows, the insert log and the virtual clock: IK age <= lifetime; no IK row inserted under an expired SK; no record under an IK whose SK expired more than one revoke-check interval ago.",
+         "Trusted: testing/synctest clock; policies satisfy ExpireKeyAfter >= 2*CreateDatePrecision; metastore accepts writes.",
+         "3/C04"),
+ "C05": ("hist", "exploration",
+         "per-record oracle in virtual time over seeded histories with out-of-band revocations plus a deterministic matrix; known-finding filter by signature",
+         "Rows are flagged revoked directly in the raw store under live, long-lived sessions; for every later record the oracle decides from the record, raw rows, flip log and virtual clock whether a key revoked more than 1 (IK) / 2 (parent SK) revoke-check intervals ago is still named although a later stamp was creatable; records under revoked keys must still decrypt. Matrix: 6 configurations x {latest/older IK/SK} x 5 flip offsets x other-process-rotated, then an encrypt every R/4 for 4R.",
+         "Trusted: testing/synctest clock. Known finding F11 (decrypt-path seeding of the 'latest' alias) is listed in known_findings.json and reproduced deterministically on every run.",
+         "3/C05"),
 }
-CLAIMED = ["C15"]
+CLAIMED = ["C01", "C03", "C04", "C05", "C15"]
 PENDING_REASON = "check not built yet in this round (work in progress; see DESIGN.md section 3 for the planned monitor)"
 
 checks = []
